@@ -1,6 +1,7 @@
 (* C08 — temporal bounds denote physical durations whatever the unit notation. *)
-From Coq Require Import ZArith QArith List.
-From RV Require Import Offline Units.
+From Coq Require Import ZArith QArith List String.
+From RV Require Import Val Syntax Rho Offline Pastify Units UnitsLift UnitsLiftCorrect ExtZ.
+Import ListNotations.
 Local Open Scope Q_scope.
 
 (* the bound in samples times the period is exactly the duration: never rounded *)
@@ -45,3 +46,154 @@ Example C08_nonvacuous :
   to_samples UMS 500 UMS {| ib := 500000; ie := 1500; ibu := Some UUS; ieu := Some UMS |} = Ok (1%nat, 3%nat) /\
   to_samples US 1 US {| ib := 500; ie := 1500; ibu := Some UMS; ieu := Some UMS |} = Rtamt.
 Proof. repeat split; vm_compute; reflexivity. Qed.
+
+(* ---------- whole formulas (UnitsLift.v: every temporal node carries its interval as it is written) ---------- *)
+
+(* two specifications of the same shape whose corresponding bounds denote the same durations (units on either end,
+   default unit, declared constants), under settings whose sampling periods denote the same duration, are normalised
+   to the SAME core formula, or are rejected in the same class *)
+Theorem C08_formula_spelling :
+  forall (VS : Val) st1 ce1 (u1 : uformula) st2 ce2 (u2 : uformula),
+    same_period st1 st2 ->
+    brel (same_duration (s_du st1) ce1 (s_du st2) ce2) u1 u2 ->
+    normalize st1 ce1 u1 = normalize st2 ce2 u2.
+Proof. exact @normalize_spelling. Qed.
+Print Assumptions C08_formula_spelling.
+
+(* hence identical outputs on identical inputs: offline, online, and both after pastify() *)
+Theorem C08_formula_monitors :
+  forall (VS : Val) (AR : Arith VS) (pk : formula -> formula -> pkind) st1 ce1 (u1 : uformula) st2 ce2 (u2 : uformula),
+    same_period st1 st2 ->
+    brel (same_duration (s_du st1) ce1 (s_du st2) ce2) u1 u2 ->
+    (forall (T : Type) (ts : list T) w, spec_evaluate AR pk st1 ce1 u1 ts w = spec_evaluate AR pk st2 ce2 u2 ts w) /\
+    (forall w n, spec_online AR pk st1 ce1 u1 w n = spec_online AR pk st2 ce2 u2 w n) /\
+    (forall dk w n, spec_pastified_online AR pk dk st1 ce1 u1 w n = spec_pastified_online AR pk dk st2 ce2 u2 w n) /\
+    (forall (T : Type) dk (ts : list T) w,
+       spec_pastified_evaluate AR pk dk st1 ce1 u1 ts w = spec_pastified_evaluate AR pk dk st2 ce2 u2 ts w).
+Proof. exact @monitors_spelling. Qed.
+Print Assumptions C08_formula_monitors.
+
+(* one bound, anywhere in the specification, that is not a whole number of sampling periods: RTAMTException *)
+Theorem C08_formula_reject :
+  forall (VS : Val) st ce (u : uformula) ub i,
+    In ub (bounds u) -> resolve_bound ce ub = Ok i ->
+    is_int (begin_ns (s_du st) i / period_q (s_p st) (s_pu st)) = false \/
+    is_int (end_ns (s_du st) i / period_q (s_p st) (s_pu st)) = false ->
+    normalize st ce u = Rtamt.
+Proof. exact @normalize_reject. Qed.
+Print Assumptions C08_formula_reject.
+
+Theorem C08_formula_reject_monitors :
+  forall (VS : Val) (AR : Arith VS) (pk : formula -> formula -> pkind) st ce (u : uformula) ub i,
+    In ub (bounds u) -> resolve_bound ce ub = Ok i ->
+    is_int (begin_ns (s_du st) i / period_q (s_p st) (s_pu st)) = false \/
+    is_int (end_ns (s_du st) i / period_q (s_p st) (s_pu st)) = false ->
+    (forall (T : Type) (ts : list T) w, spec_evaluate AR pk st ce u ts w = Rtamt) /\
+    (forall w n, spec_online AR pk st ce u w n = Rtamt) /\
+    (forall dk w n, spec_pastified_online AR pk dk st ce u w n = Rtamt) /\
+    (forall (T : Type) dk (ts : list T) w, spec_pastified_evaluate AR pk dk st ce u ts w = Rtamt).
+Proof. exact @monitors_reject. Qed.
+Print Assumptions C08_formula_reject_monitors.
+
+(* nothing is rounded anywhere: the sample counts of the normalised formula times the period are the written durations *)
+Theorem C08_formula_exact :
+  forall (VS : Val) st ce (u : uformula) p,
+    normalize st ce u = Ok p ->
+    Forall2 (fun ub be => exists i, resolve_bound ce ub = Ok i /\
+               inject_Z (Z.of_nat (fst be)) * period_q (s_p st) (s_pu st) == begin_ns (s_du st) i /\
+               inject_Z (Z.of_nat (snd be)) * period_q (s_p st) (s_pu st) == end_ns (s_du st) i)
+            (bounds u) (bounds (of_formula p)).
+Proof. exact @normalize_exact. Qed.
+Print Assumptions C08_formula_exact.
+
+(* the normalisation raises RTAMTException or nothing *)
+Theorem C08_formula_no_other_exception :
+  forall (VS : Val) st ce (u : uformula), normalize st ce u <> Crash.
+Proof. exact @normalize_no_crash. Qed.
+Print Assumptions C08_formula_no_other_exception.
+
+(* dense time: never rejected for being off a grid (only by the parser, or for a bound beyond the floats) *)
+Theorem C08_formula_dense_total :
+  forall (VS : Val) du ce (u : uformula) v,
+    parse_bounds du ce u = Ok v ->
+    (forall i, In i (bounds v) ->
+       float_overflow (Qred (fst (to_default du i))) = false /\ float_overflow (Qred (snd (to_default du i))) = false) ->
+    exists q, normalize_dense du ce u = Ok q.
+Proof. exact @normalize_dense_total. Qed.
+Print Assumptions C08_formula_dense_total.
+
+(* dense time, same default unit: same bounds, same results of both dense monitors *)
+Theorem C08_formula_dense :
+  forall (VS : Val) (AR : Arith VS) (pk : formula -> formula -> pkind) du tick ce1 (u1 : uformula) ce2 (u2 : uformula),
+    brel (same_duration du ce1 du ce2) u1 u2 ->
+    normalize_dense du ce1 u1 = normalize_dense du ce2 u2 /\
+    (forall W, spec_dense_evaluate AR pk du tick ce1 u1 W = spec_dense_evaluate AR pk du tick ce2 u2 W) /\
+    (forall bs, spec_dense_online AR pk du tick ce1 u1 bs = spec_dense_online AR pk du tick ce2 u2 bs).
+Proof.
+  intros VS AR pk du tick ce1 u1 ce2 u2 H. split.
+  - exact (normalize_dense_spelling du ce1 u1 ce2 u2 H).
+  - exact (dense_monitors_spelling AR pk du tick ce1 u1 ce2 u2 H).
+Qed.
+Print Assumptions C08_formula_dense.
+
+(* dense time, default units (= unit of the time stamps) that differ: same results on ticks of the same duration *)
+Theorem C08_formula_dense_units :
+  forall (VS : Val) (AR : Arith VS) (pk : formula -> formula -> pkind)
+         du1 tick1 ce1 (u1 : uformula) du2 tick2 ce2 (u2 : uformula) q1 q2,
+    0 < tick1 -> 0 < tick2 ->
+    tick1 * inject_Z (uval du1) == tick2 * inject_Z (uval du2) ->
+    brel (same_duration du1 ce1 du2 ce2) u1 u2 ->
+    normalize_dense du1 ce1 u1 = Ok q1 -> normalize_dense du2 ce2 u2 = Ok q2 ->
+    (forall W, spec_dense_evaluate AR pk du1 tick1 ce1 u1 W = spec_dense_evaluate AR pk du2 tick2 ce2 u2 W) /\
+    (forall bs, spec_dense_online AR pk du1 tick1 ce1 u1 bs = spec_dense_online AR pk du2 tick2 ce2 u2 bs).
+Proof. exact @dense_monitors_units. Qed.
+Print Assumptions C08_formula_dense_units.
+
+(* non-vacuity, on the executable instance:
+     default unit s,  period 500000 us:  (once[500ms, 1500] (x0 >= 1)) since[k0 : k1 s] (always[0, 2000ms] (x1 >= 0))   with k0 = 0, k1 = 1
+     default unit ms, period 0.5 s    :  (once[0.5s, 1500000us] (x0 >= 1)) since[0 : 1000] (always[0us, c] (x1 >= 0))  with c = 2000000
+   (a unit on one end only is the unit of both ends)
+   are related, are both normalised to (once[1,3] ..) since[0,2] (always[0,4] ..); with one bound moved by 1 ms both are rejected,
+   and the dense monitors accept that specification *)
+Section Examples.
+Local Open Scope string_scope.
+Let leaf (x : nat) (c : Z) : @uformula ExtZVal := BBin (OPred CGeq) (BVar x) (BConst (Fin c)).
+Let ex1 : @uformula ExtZVal :=
+  BBinT TSince {| u_b := UId "k0"; u_bu := None; u_e := UId "k1"; u_eu := Some US |}
+    (BUnT TOnce {| u_b := ULit 500; u_bu := Some UMS; u_e := ULit 1500; u_eu := None |} (leaf 0 1))
+    (BUnT TAlw {| u_b := ULit 0; u_bu := None; u_e := ULit 2000; u_eu := Some UMS |} (leaf 1 0)).
+Let ex2 : @uformula ExtZVal :=
+  BBinT TSince {| u_b := ULit 0; u_bu := None; u_e := ULit 1000; u_eu := None |}
+    (BUnT TOnce {| u_b := ULit (1 # 2); u_bu := Some US; u_e := ULit 1500000; u_eu := Some UUS |} (leaf 0 1))
+    (BUnT TAlw {| u_b := ULit 0; u_bu := Some UUS; u_e := UId "c"; u_eu := None |} (leaf 1 0)).
+Let ex3 : @uformula ExtZVal :=
+  BBinT TSince {| u_b := ULit 0; u_bu := None; u_e := ULit 1000; u_eu := None |}
+    (BUnT TOnce {| u_b := ULit (501 # 1000); u_bu := Some US; u_e := ULit 1500000; u_eu := Some UUS |} (leaf 0 1))
+    (BUnT TAlw {| u_b := ULit 0; u_bu := Some UUS; u_e := UId "c"; u_eu := None |} (leaf 1 0)).
+Let st1 := {| s_du := US; s_p := 500000; s_pu := UUS |}.
+Let st2 := {| s_du := UMS; s_p := 1 # 2; s_pu := US |}.
+Let ce1 : cenv := [("k0", Some 0); ("k1", Some 1)].
+Let ce2 : cenv := [("c", Some 2000000)].
+Let core : @formula ExtZVal :=
+  SinceT 0 2 (OnceT 1 3 (Pred CGeq (Var 0) (Const (Fin 1)))) (AlwT 0 4 (Pred CGeq (Var 1) (Const (Fin 0)))).
+
+Example C08_formula_nonvacuous :
+  same_period st1 st2 /\
+  brel (same_duration (s_du st1) ce1 (s_du st2) ce2) ex1 ex2 /\
+  normalize st1 ce1 ex1 = Ok core /\ normalize st2 ce2 ex2 = Ok core /\
+  normalize st2 ce2 ex3 = Rtamt /\
+  normalize st2 [] ex2 = Rtamt /\
+  (exists q, normalize_dense (s_du st2) ce2 ex3 = Ok q /\ on_ticks 250 q = false /\ on_ticks 1 q = true) /\
+  (exists q1 q2, normalize_dense US ce1 ex1 = Ok q1 /\ normalize_dense UMS ce2 ex2 = Ok q2 /\
+                 tick_formula (1 # 4) q1 = tick_formula 250 q2 /\ on_ticks (1 # 4) q1 = true).
+Proof.
+  split; [reflexivity|]. split.
+  { unfold ex1, ex2, leaf.
+    repeat first [ apply RBinT | apply RUnT | apply RBin | apply RVar | apply RConst | (vm_compute; split; reflexivity) ]. }
+  split; [vm_compute; reflexivity|]. split; [vm_compute; reflexivity|].
+  split; [vm_compute; reflexivity|]. split; [vm_compute; reflexivity|].
+  split.
+  - eexists. split; [vm_compute; reflexivity|]. split; vm_compute; reflexivity.
+  - eexists. eexists. split; [vm_compute; reflexivity|]. split; [vm_compute; reflexivity|]. split; vm_compute; reflexivity.
+Qed.
+End Examples.
